@@ -139,7 +139,16 @@ impl<S: WebSocket, T: TimestampProvider> Task<S, T> {
         let (should_drain_frame_rx, res) = futures_util::select_biased! {
             r = self.process_ws_next().fuse() => {
                 debug!("`process_ws_next` finished: {r:?}");
-                (false, r)
+                if self.con_recv_stream_tx.is_closed()
+                    && matches!(r, Err(Error::SendStreamToClient | Error::Closed))
+                {
+                    // We failed to hand a new stream or datagram to a `Multiplexor` that has just
+                    // been dropped. This is the same situation as `process_dropped_flows_task`
+                    // returning: we should still flush what was queued before the drop.
+                    (true, Ok(()))
+                } else {
+                    (false, r)
+                }
             }
             r = self.process_message_to_send_task(&mut tx_msg_rx).fuse() => {
                 debug!("`process_message_to_send_task` task finished: {r:?}");
